@@ -41,9 +41,10 @@ def render(c):
         return 'select %s from int1.t1 %s int2.t2 on t1.a = t2.a%s%s%s%s' % (tg, KIND[c['kind']], where(c['where']), grp,
                                                                            order, lim(c['lim']))
     if sh == 'join3':
-        on3 = {'t3b=t1b': 't3.b = t1.b', 't3c=t2c': 't3.c = t2.c', 't3b=t2a': 't3.b = t2.a'}[c['on3']]
-        return 'select * from int1.t1 %s int2.t2 on t1.a = t2.a %s int1.t3 on %s%s' % (KIND[c['kind']], KIND[c['kind2']],
-                                                                                    on3, where(c['where']))
+        on3 = {'t3b=t1b': 't3.b = t1.b', 't3c=t2c': 't3.c = t2.c', 't3b=t2a': 't3.b = t2.a', 't3c=t2a': 't3.c = t2.a'}[c['on3']]
+        on12 = {'t1a=t2a': 't1.a = t2.a', 't2c=t1a': 't2.c = t1.a', 't2c=t1b': 't2.c = t1.b'}[c.get('on12', 't1a=t2a')]
+        return 'select * from int1.t1 %s int2.t2 on %s %s int1.t3 on %s%s' % (KIND[c['kind']], on12, KIND[c['kind2']],
+                                                                            on3, where(c['where']))
     if sh == 'insub':
         inner = {'none': '', 'c=1': ' where c = 1', 'c-null': ' where c is null'}[c['inner']]
         w = (' and ' + W[c['where']]) if W[c['where']] else ''
